@@ -68,6 +68,8 @@ class Gen:
         self.uid = 0
         self.mods: list[Mod] = []
         self.sites: list[tuple] = []  # (file, line0, col0, expected (file, line0) | None, note)
+        self.comp_sites: list[tuple] = []  # (file, line0, col0, typed prefix, expected user names)
+        self.r2 = random.Random(hash(rnd.getstate()))  # derived without consuming from the main stream
 
     def nm(self, pre):
         self.uid += 1
@@ -206,8 +208,12 @@ class Gen:
             obj = (obj, td)
         self.use_sites(m, scope, obj, 4)
         # internal procedure seeing the host's scope
-        if r.random() < 0.6:
+        has_internal = r.random() < 0.6
+        if not has_internal:
+            self.completion_site(m, scope, 4, set())
+        if has_internal:
             iname = self.nm("i")
+            self.completion_site(m, scope, 4, {iname})
             L.append(f"    call {iname}(1)")
             call_line = len(L) - 1
             L.append("  contains")
@@ -222,6 +228,7 @@ class Gen:
                 L.append(f"      integer :: {s}")
                 inner[s] = Decl(s, m.file, len(L) - 1, "var")
             self.use_sites(m, inner, obj, 6)
+            self.completion_site(m, inner, 6, {"zz"})
             L.append(f"    end subroutine {iname}")
         L.append(f"  end subroutine {pname}")
         L.append(f"end module {m.name}")
@@ -253,6 +260,19 @@ class Gen:
 
     def type_members_of(self, tdecl):
         return self.all_type_members.get(id(tdecl), [])
+
+    def completion_site(self, m: Mod, scope: dict, indent: int, also_visible):
+        """completion: the variables and procedures offered for a typed prefix are exactly the visible ones
+        (own random stream: the definition sites above keep their programs)"""
+        r, L = self.r2, m.lines
+        pad = " " * indent
+        cands = sorted(n for n, d in scope.items() if d.kind in ("var", "proc"))
+        if cands and r.random() < 0.7:
+            pick = r.choice(cands)
+            prefix = pick[: r.randint(1, len(pick))]
+            L.append(f"{pad}arg = {prefix}")
+            expected = {n for n in cands if n.startswith(prefix)} | {n for n in also_visible if n.startswith(prefix)}
+            self.comp_sites.append((m.file, len(L) - 1, len(L[-1]), prefix, expected))
 
     def use_sites(self, m: Mod, scope: dict, obj, indent: int):
         r, L = self.r, m.lines
@@ -299,6 +319,58 @@ class Gen:
         return files, self.sites
 
 
+def user_names(g: "Gen"):
+    names = {"arg", "zz"}
+    for m in g.mods:
+        names.add(m.name)
+        names |= set(m.decls)
+        for u, only in m.uses + ([(m.proc_use[0], m.proc_use[2])] if getattr(m, "proc_use", None) else []):
+            if isinstance(only, tuple):
+                names |= set(only[1])
+            elif isinstance(only, dict):
+                names |= set(only)
+        for t in m.lines:
+            for w in t.replace(",", " ").replace("(", " ").replace(")", " ").split():
+                if w[:1] in "voicextrp" and w[1:].isdigit() or (w[:2] == "rn" and w[2:].isdigit()):
+                    names.add(w)
+    return {n.lower() for n in names}
+
+
+def check_completion(files, g: "Gen", mode=0):
+    from replay.harness import Workspace, session
+    if not g.comp_sites:
+        return None
+    ws = Workspace(files)
+    try:
+        order = list(files) if mode == 0 else (list(reversed(list(files))) if mode == 1 else [])
+        msgs = [{"jsonrpc": "2.0", "method": "textDocument/didOpen", "params": {"textDocument": {"uri": ws.uri(n)}}} for n in order]
+        for k, (f, ln, ch, _, _) in enumerate(g.comp_sites):
+            msgs.append({"jsonrpc": "2.0", "id": 100 + k, "method": "textDocument/completion",
+                         "params": {"textDocument": {"uri": ws.uri(f)}, "position": {"line": ln, "character": ch}}})
+        srv, out = session(ws, msgs)
+        by_id = {m["id"]: m for m in out if "id" in m}
+        universe = user_names(g)
+        for k, (f, ln, ch, prefix, expected) in enumerate(g.comp_sites):
+            r = by_id.get(100 + k, {})
+            if "error" in r:
+                return {"completion_site": {"file": f, "line": ln, "text": files[f].split("\n")[ln]}, "error": r["error"].get("message")}
+            labels = {str(i.get("label")).lower() for i in (r.get("result") or [])}
+            offered = {l for l in labels if l in universe}
+            # derived types and modules may be offered too: only variables and procedures are compared
+            kinds = {}
+            for m in g.mods:
+                for n, d in m.decls.items():
+                    kinds.setdefault(n, d.kind)
+            offered = {l for l in offered if kinds.get(l, "var") in ("var", "proc") and l not in {m.name for m in g.mods}}
+            want = {n.lower() for n in expected}
+            if offered != want:
+                return {"completion_site": {"file": f, "line": ln, "text": files[f].split("\n")[ln], "typed": prefix},
+                        "accessible_matches_not_offered": sorted(want - offered), "offered_but_not_accessible_or_not_matching": sorted(offered - want)}
+        return None
+    finally:
+        ws.close()
+
+
 def check_program(files, sites, mode=0):
     """mode 0: files opened in USE order; 1: in reverse order; 2: not opened at all (indexed by initialize only) —
     the order in which files are linked must not matter"""
@@ -328,6 +400,21 @@ def check_program(files, sites, mode=0):
 
 # generator seeds (with their open mode) that exposed defects of the pinned tree; always run first
 REGRESSION = [(24, 0), (551, 2), (8135, 0), (23963, 1)]
+
+
+def run_completion(tier: str, seed: int):
+    n = ns = 0
+    for k in range(200 if tier == "thorough" else 60):
+        g = Gen(random.Random(seed * 7919 + 100000 + k))
+        files, _ = g.generate()
+        n += 1
+        ns += len(g.comp_sites)
+        w = check_completion(files, g, mode=k % 3)
+        if w:
+            w["files"] = files
+            w["generator_seed"] = seed * 7919 + 100000 + k
+            return w, n, ns
+    return None, n, ns
 
 
 def run(tier: str, seed: int):
